@@ -20,7 +20,11 @@ META = {
             "own verdict (/proc/self/fd of the opened result, outside-tree snapshots after destructive operations) and, end "
             "to end, generated Ego programs run by the server's sandboxed run-code path against every file-touching runtime "
             "function with hostile paths: outside snapshot unchanged, working directory inside, and non-interference "
-            "(same program, twin layout with a different outside world, equal output).",
+            "(same program, twin layout with a different outside world, equal output). Listing functions (io.ReadDir, "
+            "io.Expand; os.Stat / io.ReadDir / os.ReadFile / os.Open on the entries) are also run on inside directories whose "
+            "ENTRIES are symlinks leading outside (files, directories, chains, one-world-only names): every returned field "
+            "(name, type, mode, size, modification time, children) must equal the twin's and must not change when the "
+            "outside world is altered in place.",
     "note": "trusted: Lean kernel; the go/ast translator (sink table, 3-label taint, fails closed on unknown statements and "
             "unknown native passthroughs of os/filepath functions); the harnesses; Linux path resolution as stated by the Walk "
             "relation in Props.lean (component-wise, '..' = physical parent, symlink substitution; creating calls act on a "
@@ -33,7 +37,9 @@ META = {
             "C26_dangling_counterexample + C26_contained_old_partial describe the unpatched helper. Known finding: "
             "sql.Open(sqlite path) is not confined. io.Expand on a layout with a directory-symlink cycle recurses without "
             "end under the sandbox (denial of service, outside this property): those cases are skipped by the generator. "
-            "`import \"path\"` in a program is compile-time and out of scope.",
+            "`import \"path\"` in a program is compile-time and out of scope. The static routing obligation labels a routed "
+            "path extended by a directory entry's name (filepath.Join(routed, entry.Name())) as routed: a symlink-following "
+            "call on such a child path is outside the theorem and is searched only by the end-to-end listing oracle.",
     "technique": "Lean 4 proof (inductive kernel-resolution relation, invariants, induction) + go/ast translator with generated "
                  "decide obligation + model/implementation correspondence + model-free end-to-end oracles",
     "design_ref": "DESIGN.md §6 C26",
@@ -102,6 +108,8 @@ def run(ctx):
     c, ce = st.get("counters", {}), se.get("counters", {})
     if ok_x and ce.get("programs", 0) == 0:
         ctx.broken.append("end-to-end harness ran no program")
+    if ok_x and rc == 0 and (ce.get("listing_programs", 0) == 0 or ce.get("listing_entries_escaping", 0) == 0):
+        ctx.broken.append("end-to-end harness listed no directory with an entry that leads outside the root")
     ctx.coverage.update({
         "evaluations": len(cases) + ce.get("programs", 0),
         "distinct_nontrivial": c.get("distinct_nontrivial", 0) + ce.get("distinct_nontrivial", 0),
@@ -109,7 +117,9 @@ def run(ctx):
                 "hostile target shapes) x 40 hostile path spellings each; non-trivial = path contains '..' or the layout has a "
                 "symlink, counted distinct by (root, path). End to end: per layout pair ~30 generated Ego programs over 21 "
                 "file-touching functions; non-trivial = path has '..', is absolute, or the layout has symlinks; distinct by "
-                "(function, path, extension).",
+                "(function, path, extension). Listing phase (counters listing_*): per layout up to 3 inside directories, one "
+                "planted with 4-12 entries (symlinks to outside files/directories, chains, hostile shapes, controls); "
+                "listing_entries_escaping = entries the kernel resolves outside the root (measured).",
         "samples": (st.get("samples", [])[:4] + se.get("samples", [])[:4]),
         "counters": {"util": c, "e2e": ce},
         "routing_unrouted": unrouted,
